@@ -202,6 +202,10 @@ func cmdVerify(args []string) {
 				}
 			}
 		}
+		if len(e.StaleLoops) > 0 {
+			fmt.Printf("  STALE  contract names loop(s) %v but the function has no such loop\n", e.StaleLoops)
+			bad++
+		}
 		for _, c := range e.Covers {
 			if c.Result == "unsat" {
 				fmt.Printf("  VACUOUS %s => %s\n", c.Name, c.Result)
